@@ -429,21 +429,106 @@ theorem serial_reply_applies (t : Table) (c : Client) (sid sn : Nat) (ds : List 
 example : (feed [] { host := 7, endOfData := true } (response 0 1 [⟨true, ⟨4, 8, 10⟩, 8, 100⟩,
     ⟨false, ⟨4, 8, 10⟩, 8, 100⟩])).1 = [] := by decide
 
-/-- **Purges.** Disable / Reset, SoftReset, DeleteServer and an expiring lifetime (session
+/-- **Purges.** Disable / Reset, SoftReset, DeleteServer and the timeout event of the lifetime
+    timer that is still running (armed as generation `c.timerGen`, not stopped since; session
     unchanged since the disconnect) remove exactly the records of that cache. -/
 theorem purge_exact (m : Mgr) (h : Nat) (c : Client) (hc : findClient m.clients h = some c) (x : Rec) :
     (x ∈ recs (step m (.disable h)).1.table ↔ x ∈ recs m.table ∧ x.2.src ≠ h) ∧
     (x ∈ recs (step m (.softReset h)).1.table ↔ x ∈ recs m.table ∧ x.2.src ≠ h) ∧
     (x ∈ recs (step m (.deleteServer h)).1.table ↔ x ∈ recs m.table ∧ x.2.src ≠ h) ∧
-    (c.oldSession = c.session →
-      (x ∈ recs (step m (.lifetime h)).1.table ↔ x ∈ recs m.table ∧ x.2.src ≠ h)) := by
+    (c.oldSession = c.session → c.timer = true →
+      (x ∈ recs (step m (.lifetime h c.timerGen)).1.table ↔ x ∈ recs m.table ∧ x.2.src ≠ h)) := by
   refine ⟨?_, ?_, ?_, ?_⟩
   · simp only [step, hc]; exact mem_recs_deleteAll _ _ _
   · simp only [step, hc]; exact mem_recs_deleteAll _ _ _
   · simp only [step, hc]; exact mem_recs_deleteAll _ _ _
-  · intro he
-    simp only [step, hc, he, ne_eq, not_true_eq_false, ↓reduceIte]
+  · intro he ht
+    simp only [step, hc, he, ht, ne_eq, not_true_eq_false, Bool.true_eq_false, or_self, ↓reduceIte]
     exact mem_recs_deleteAll _ _ _
+
+/-! ### Late timeout events
+
+  The timer callback posts its event on the manager's channel; the event may be handled long
+  after the timer fired.  `StaleGen m h g`: generation `g` has been issued and no client named
+  `h` has the timer of generation `g` running. -/
+
+/-- **A stale timeout event removes nothing — now or after any further history.** -/
+theorem stale_timeout_removes_nothing (m : Mgr) (h g : Nat) (hs : StaleGen m h g) (evs : List Ev) :
+    step (run m evs) (.lifetime h g) = (run m evs, true, []) :=
+  stale_lifetime_noop _ h g (stale_run m evs h g hs)
+
+/-- End of Data stops the timer: every timeout event issued so far for that cache is stale from
+    then on (the race: the timer fired, its event waits in the channel while End of Data of the
+    new synchronisation is handled — same or different session id). -/
+theorem timeout_after_end_of_data (m : Mgr) (h g sid sn : Nat) (c : Client)
+    (hc : findClient m.clients h = some c) (hg : g ≤ m.timerSeq) (evs : List Ev) :
+    step (run (step m (.rtr h (.endOfData sid sn))).1 evs) (.lifetime h g) =
+      (run (step m (.rtr h (.endOfData sid sn))).1 evs, true, []) := by
+  apply stale_timeout_removes_nothing
+  simp only [step, hc]
+  refine ⟨hg, ?_⟩
+  intro y hy hyh
+  left
+  have hh : (handleRTR m.table c (.endOfData sid sn)).2.1.host = h := by
+    rw [handleRTR_host]; exact (findClient_some hc).2
+  rw [mem_setClient_host hy (by rw [hh]; exact hyh)]
+  rfl
+
+/-- re-arming (a disconnect when no timer is pending) takes a fresh generation: every timeout
+    event issued before is stale from then on -/
+theorem timeout_after_rearm (m : Mgr) (h g : Nat) (c : Client)
+    (hc : findClient m.clients h = some c) (ht : c.timer = false) (hg : g ≤ m.timerSeq)
+    (evs : List Ev) :
+    step (run (step m (.disconnected h)).1 evs) (.lifetime h g) =
+      (run (step m (.disconnected h)).1 evs, true, []) := by
+  apply stale_timeout_removes_nothing
+  simp only [step, hc, ht]
+  refine ⟨by simp; omega, ?_⟩
+  intro y hy hyh
+  right
+  rw [mem_setClient_host hy (by simp only; rw [(findClient_some hc).2]; exact hyh)]
+  simp
+  omega
+
+/-- DeleteServer: timeout events of the deleted client are stale for whoever is configured
+    under that name later -/
+theorem timeout_after_delete_server (m : Mgr) (h g : Nat) (hg : g ≤ m.timerSeq) (evs : List Ev) :
+    step (run (step m (.deleteServer h)).1 evs) (.lifetime h g) =
+      (run (step m (.deleteServer h)).1 evs, true, []) := by
+  apply stale_timeout_removes_nothing
+  simp only [step]
+  split
+  · rename_i hf
+    refine ⟨hg, ?_⟩
+    intro y hy hyh
+    exfalso
+    have : findClient m.clients h = some y ∨ ∃ z, findClient m.clients h = some z := by
+      right
+      unfold findClient
+      cases hfz : m.clients.find? (fun c => c.host == h) with
+      | some z => exact ⟨z, rfl⟩
+      | none =>
+        rw [List.find?_eq_none] at hfz
+        exact absurd (by simpa using hyh) (hfz y hy)
+    rcases this with h1 | ⟨z, h1⟩ <;> simp [h1] at hf
+  · refine ⟨hg, ?_⟩
+    intro y hy hyh
+    have := (List.mem_filter.mp hy).2
+    simp [hyh] at this
+
+/-- the interleaving reported for the unrepaired code, on the model: disconnect, reconnect, the
+    timer (generation 1) fires, End of Data of the new synchronisation with the SAME session id
+    is handled, then the waiting event — the table keeps the fresh records -/
+example : (run {} [.addServer 1, .connected 1, .rtr 1 (.cacheResponse 5),
+    .rtr 1 (.prefix true ⟨4, 8, 10⟩ 8 100), .rtr 1 (.endOfData 5 9),
+    .connClosed 1, .disconnected 1, .connected 1, .rtr 1 (.cacheResponse 5),
+    .rtr 1 (.prefix true ⟨4, 8, 10⟩ 8 100), .rtr 1 (.endOfData 5 9),
+    .lifetime 1 1]).table = [(⟨4, 8, 10⟩, [⟨8, 100, 1⟩])] := by decide
+
+/-- … while the same event handled BEFORE End of Data is a legitimate expiry and purges -/
+example : (run {} [.addServer 1, .connected 1, .rtr 1 (.cacheResponse 5),
+    .rtr 1 (.prefix true ⟨4, 8, 10⟩ 8 100), .rtr 1 (.endOfData 5 9),
+    .connClosed 1, .disconnected 1, .connected 1, .lifetime 1 1]).table = [] := by decide
 
 /-- events of one cache never touch the records of another -/
 theorem others_untouched (t : Table) (c : Client) (pdu : Pdu) (wf : WF t)
